@@ -184,3 +184,15 @@ claim(
     "Closed limits up to 4 eps max|limit|; limit-changing calls are generated only when the current value lies inside the new limits.",
     "Hypothesis PBT (exact rational oracle) + model-based histories with recording callables",
 )
+claim(
+    "C07",
+    "Generated-input search on the public trajectory pieces (run_leapfrog, hamiltonian, kinetic_energy, mass.sample_momentum, finite_diff) over "
+    "five smooth targets, d=1..4, default / scalar / vector / full-matrix mass, T 0.3..50, eps*omega 0.01..0.7, 1..60 steps, with and without "
+    "reflecting boxes: forward-flip-forward round trip (tolerance scaled by the measured sensitivity), central-difference Jacobian determinant "
+    "= 1 at two stencil sizes, observed order of the energy-error envelope between the finest step halvings >= 1.7, exact chi-square KS test of "
+    "2K over sampled momenta, H - K = -log-density / T, an independent textbook leapfrog with specular walls, finite-difference gradient vs "
+    "analytic gradient incl. exactly-zero and 1e-12-scale coordinates.",
+    "Trajectories start strictly inside the box (a point exactly on the upper wall counts as folded once - measure zero, noted in DESIGN.md); "
+    "four open known findings (wall reflection: full-matrix mass not reversible; energy error first order per bounce for every mass kind).",
+    "Hypothesis PBT with metamorphic (reversal), numerical-Jacobian, convergence-order and reference-integrator oracles",
+)
